@@ -72,6 +72,30 @@ def run(chk):
     for s in long:
         chk.distinct.add("%d:%s" % (s["w"], s["arrivals"]))
     run_scripts(chk, binary, long, "default-window-long")
+    # every CONFIGURED window size, not only 64: sizes around the 64-bit words of the detector's bitmap (the detector lost
+    # bits for 33..63, 97..127, ... before the "fix:" commit that rounds the window up), random long sequences per size and
+    # every short sequence over two clusters of records that straddle the far edge of the effective window
+    vlib.tlc_expect_violation(MODULE, "ReplayWindow.mc.prefix.cfg", "AtMostOnce", timeout=300)
+    for cfg in ("ReplayWindow.mcedge64.cfg", "ReplayWindow.mcedge128.cfg"):
+        chk.add_tlc(cfg.split(".")[1], vlib.tlc_check(MODULE, cfg, timeout=900))
+    simw = vlib.tlc_generate(MODULE, "ReplayWindow.simw.cfg", simulate="num=%d" % (n * 2), depth=160, seed=chk.seed + 1, timeout=900)
+    if len(simw.printed) < n or len(set(s["w"] for s in simw.printed)) < 12:
+        raise vlib.Inconclusive("window-size simulation produced %d behaviours" % len(simw.printed))
+    for s in simw.printed:
+        chk.distinct.add("%d:%s" % (s["w"], s["arrivals"]))
+    run_scripts(chk, binary, simw.printed, "window-sizes-long")
+    edge = []
+    for cfg in ("ReplayWindow.genedge64.cfg", "ReplayWindow.genedge128.cfg"):
+        g = vlib.tlc_generate(MODULE, cfg, timeout=900)
+        chk.add_tlc(cfg.split(".")[1], g)
+        edge += g.printed
+    if len(edge) < 5000:
+        raise vlib.Inconclusive("too few window-edge scripts")
+    if chk.quick:
+        edge = edge[chk.seed % 3::3]
+    for s in edge:
+        chk.distinct.add("%d:%s" % (s["w"], s["arrivals"]))
+    run_scripts(chk, binary, edge, "window-edge")
     # replays across a DTLS 1.3 key update (spec/ReplayEpochs.tla) and across truncated-number boundaries
     res = vlib.tlc_check("ReplayEpochs", "ReplayEpochs.mc.%s.cfg" % t, timeout=1500)
     chk.add_tlc("mc.epochs", res)
@@ -97,7 +121,9 @@ def run(chk):
     chk.sample(scripts[len(scripts) // 3])
     chk.sample({"long": long[0]})
     chk.coverage["rule"] = ("every arrival sequence of length L over N records for each window (exhaustive, TLC); "
-                            "plus seeded random sequences of length 110 over 70 records for window 64; distinct = distinct (window, sequence)")
+                            "plus seeded random sequences of length 110 over 70 records for window 64, of length 150 over 230 records for 16 "
+                            "window sizes between 5 and 200, and every sequence of length 5 over two record clusters straddling the far edge of "
+                            "the effective window for 9 window sizes; distinct = distinct (window, sequence)")
     chk.assumptions += ["records below the first application record were accepted in order (lossless handshake)",
                         "replay across export/import is outside this property's quantifier (the window is not serialised)"]
 
